@@ -48,7 +48,8 @@ let big_dump n m degs is_edge nbrs rows nbs =
 let sample kind n args =
   if n = 0 then [] else
     let rec take k = function [] -> [] | x :: t -> if k = 0 then [] else (x mod n) :: take (k - 1) t in
-    if kind = 'e' || kind = 'x' then take 2 args else [0; n / 2; n - 1] @ take 3 args
+    if kind = 'e' || kind = 'x' then take 2 args
+    else [0; n / 2; n - 1] @ List.filter (fun v -> v < n) [63; 64; 65; 72; 80] @ take 3 args
 
 let all_vertices n = List.init n (fun i -> i)
 
@@ -108,11 +109,13 @@ let () =
     while true do
       let line = input_line stdin in
       let i = String.index line ';' in
+      if line.[0] = 'H' then print_endline "huge" else
       let large = line.[0] = 'L' in
+      let quiet = line.[0] = 'q' in
       let prov = line.[0] = 'p' in
       let hd = String.sub line 0 i in
       let pf = if prov then String.split_on_char ',' hd else [] in
-      let n0 = if large then int_of_string (String.sub line 1 (i - 1))
+      let n0 = if large || quiet then int_of_string (String.sub line 1 (i - 1))
         else if prov then int_of_string (List.nth pf 1) else int_of_string hd in
       (* provenance mode: p<dk><sk>,<n0>,<salt>,<a>.<b>,... : start from the graph with these edges *)
       let pedges = if prov && n0 > 0 then
@@ -154,6 +157,7 @@ let () =
                | 'v', l -> Some (OAddV (vl l))
                | 's', l -> Some (OInduced (vl l))
                | 'c', _ -> Some OCopy
+               | 'o', _ -> None
                | _ -> failwith ("bad token " ^ t) in
              let touched = ref [gi] in
              (match o with
@@ -177,7 +181,8 @@ let () =
                      (store := List.mapi (fun j x -> if j = p then ne else x) !store;
                       touched := [gi; p])
                  | _ -> failwith "models disagree on whether a graph is returned"));
-             if k > 0 || prov then Buffer.add_char buf ' ';
+             if (not quiet) || kind = 'o' then begin
+             if Buffer.length buf > 0 then Buffer.add_char buf ' ';
              let rows n = sample kind n args in
              let nbs n = if kind = 'e' || kind = 'x' then sample kind n args else all_vertices n in
              let pre j x = if large then Printf.sprintf "%d=%s" j x else x in
@@ -190,7 +195,16 @@ let () =
                  List.map (fun j -> let e = List.nth !store j in pre j (dump_a e.a)) sel in
              Buffer.add_string buf ("D:" ^ String.concat ";" ds ^ "|S:" ^ String.concat ";" ss);
              if aa <> ds || aa <> ss then Buffer.add_string buf "|MODELS-DIFFER-FROM-ABSTRACT:" ;
-             if aa <> ds || aa <> ss then Buffer.add_string buf (String.concat ";" aa)) toks;
+             if aa <> ds || aa <> ss then Buffer.add_string buf (String.concat ";" aa) end) toks;
+         if quiet then begin
+           if Buffer.length buf > 0 then Buffer.add_char buf ' ';
+           let ds = List.map (fun e -> dump_d e.d) !store in
+           let ss = List.map (fun e -> dump_s e.s) !store in
+           let aa = List.map (fun e -> dump_a e.a) !store in
+           Buffer.add_string buf ("E:D:" ^ String.concat ";" ds ^ "|S:" ^ String.concat ";" ss);
+           if aa <> ds || aa <> ss then
+             Buffer.add_string buf ("|MODELS-DIFFER-FROM-ABSTRACT:" ^ String.concat ";" aa)
+         end;
          if large then begin
            let ds = List.map (fun e -> big_d e.d all_vertices all_vertices) !store in
            let ss = List.map (fun e -> big_s e.s all_vertices all_vertices) !store in
